@@ -389,7 +389,12 @@ func genC12Malformed(t *rapid.T) *Scenario {
 		a.Op(op)
 	}
 	big64 := new(uint256.Int).Lsh(uint256.NewInt(1), 64)
-	switch uniform(t, 0, 9, "malk") {
+	storagePre := map[common.Hash]common.Hash{}
+	k0 := uniform(t, 0, 19, "malk")
+	if k0 >= 10 {
+		note = c12MutatedOperand(t, c, emit, storagePre)
+	}
+	switch k0 {
 	case 9:
 		note = "VVJNAL unregistered key, zero size"
 		a.Push(7).Push(0).Push(pickU64(t, "maloff0", 0, 8, 31)).Push(5)
@@ -436,14 +441,14 @@ func genC12Malformed(t *rapid.T) *Scenario {
 		a.Push(1)
 		op := byte(RSVJNAL + uniform(t, 0, 7, "malop"))
 		emit(op, 1)
-	default:
+	case 8:
 		note = "VRJNAL unregistered key"
 		a.Push(0x5001).Push(0x1001)
 		emit(VRJNAL, 2)
 	}
 	a.Push(1).Push(c09Marker).Op(SSTORE).Op(STOP)
 	target := ContractAddrs[0]
-	st := map[common.Hash]common.Hash{}
+	st := storagePre
 	if note == "VRJNAL invalid string encoding" {
 		// short form with a length field >= 32
 		var w common.Hash
@@ -479,6 +484,148 @@ func genC12Malformed(t *rapid.T) *Scenario {
 	ex := c12Extra{Malformed: &site, Note: note}
 	sc.Extra, _ = json.Marshal(ex)
 	return sc
+}
+
+// c12MutatedOperand: a WELL-FORMED operand set of one journal instruction (key of
+// the family, parents registered, the key itself registered when the instruction
+// journals a change) with exactly ONE operand replaced by a malformed value of
+// its role: memory pointers beyond memory, also with a valid low part under dirty
+// high limbs; offsets / sizes outside the word, also aliasing a valid value when
+// narrowed to 8 or 64 bits; unknown parent / unregistered location for the ids.
+func c12MutatedOperand(t *rapid.T, c *codeGen, emit func(op byte, k int), storage map[common.Hash]common.Hash) string {
+	a := c.a
+	for k, v := range journalPrestate(func(n int) int { return uniform(t, 0, n-1, "mpre") }) {
+		storage[k] = v
+	}
+	type operand struct {
+		role string
+		v    *uint256.Int
+	}
+	u := func(x uint64) *uint256.Int { return uint256.NewInt(x) }
+	var k *jFamKey
+	switch uniform(t, 0, 3, "mfam") {
+	case 0:
+		k = jTopValue[uniform(t, 0, len(jTopValue)-1, "mtv")]
+	case 1:
+		k = jTopRef[uniform(t, 0, len(jTopRef)-1, "mtr")]
+	default:
+		k = jNested[uniform(t, 0, len(jNested)-1, "mn")]
+	}
+	change := chance(t, 40, "mchange")
+	var op byte
+	var ops []operand // in push order (last = top of stack)
+	if change {
+		c.registerKey(k)
+		if k.Ref {
+			op, ops = VRJNAL, []operand{{"type", u(k.TypeID)}, {"slot", u(k.Slot)}}
+		} else {
+			op, ops = VVJNAL, []operand{{"type", u(k.TypeID)}, {"size", u(k.Size)}, {"offset", u(k.Offset)}, {"slot", u(k.Slot)}}
+		}
+	} else if k.Parent == nil {
+		c.memString(k.Name)
+		if k.Ref {
+			op, ops = RSVJNAL, []operand{{"newtype", u(k.TypeID)}, {"newslot", u(k.Slot)}, {"ptr", u(jMemName)}}
+		} else {
+			op, ops = VSVJNAL, []operand{{"newtype", u(k.TypeID)}, {"offset", u(k.Offset)}, {"newslot", u(k.Slot)}, {"ptr", u(jMemName)}}
+		}
+	} else {
+		c.registerKey(k.Parent)
+		pp := k.Parent
+		switch {
+		case !k.Ref && !k.IndexRef:
+			op, ops = IVVVJNAL, []operand{{"ptype", u(pp.TypeID)}, {"newtype", u(k.TypeID)}, {"offset", u(k.Offset)}, {"index", u(k.IndexVal)}, {"newslot", u(k.Slot)}, {"pslot", u(pp.Slot)}}
+		case !k.Ref && k.IndexRef:
+			c.memString(k.IndexStr)
+			op, ops = IRVVJNAL, []operand{{"ptype", u(pp.TypeID)}, {"newtype", u(k.TypeID)}, {"offset", u(k.Offset)}, {"ptr", u(jMemName)}, {"newslot", u(k.Slot)}, {"pslot", u(pp.Slot)}}
+		case k.Ref && !k.IndexRef:
+			op, ops = IVVRJNAL, []operand{{"ptype", u(pp.TypeID)}, {"newtype", u(k.TypeID)}, {"index", u(k.IndexVal)}, {"newslot", u(k.Slot)}, {"pslot", u(pp.Slot)}}
+		default:
+			c.memString(k.IndexStr)
+			op, ops = IRVRJNAL, []operand{{"ptype", u(pp.TypeID)}, {"newtype", u(k.TypeID)}, {"ptr", u(jMemName)}, {"newslot", u(k.Slot)}, {"pslot", u(pp.Slot)}}
+		}
+	}
+	// operands that can be made malformed
+	var cand []int
+	for i, o := range ops {
+		switch o.role {
+		case "ptr", "offset", "size", "ptype", "pslot", "type", "slot":
+			cand = append(cand, i)
+		}
+	}
+	i := cand[uniform(t, 0, len(cand)-1, "mwhich")]
+	o := &ops[i]
+	hi := func(v *uint256.Int, bit uint) *uint256.Int {
+		return new(uint256.Int).Or(new(uint256.Int).Lsh(u(1), bit), v)
+	}
+	desc := ""
+	switch o.role {
+	case "ptr":
+		switch uniform(t, 0, 7, "mptr") {
+		case 0:
+			o.v, desc = hi(o.v, 64), "pointer 2^64 + valid"
+		case 1:
+			o.v, desc = hi(o.v, 128), "pointer 2^128 + valid"
+		case 2:
+			o.v, desc = hi(o.v, 255), "pointer 2^255 + valid"
+		case 3:
+			o.v, desc = new(uint256.Int).Add(new(uint256.Int).Lsh(u(3), 64), o.v), "pointer 3*2^64 + valid"
+		case 4:
+			o.v, desc = u(jMemName+0x40), "pointer = memory size"
+		case 5:
+			o.v, desc = u(jMemName+0x40-31), "pointer: length word straddles the end of memory"
+		case 6:
+			o.v, desc = new(uint256.Int).Not(u(0)), "pointer 2^256-1"
+		default:
+			// valid pointer, length word larger than the memory behind it
+			a.Push(pickU64(t, "mlen", 33, 1<<20, 1<<32, 1<<63, ^uint64(0))).Push(jMemName).Op(MSTORE)
+			desc = "length word beyond memory"
+		}
+	case "offset":
+		switch uniform(t, 0, 5, "moff") {
+		case 0:
+			o.v, desc = u(32), "offset 32"
+		case 1:
+			o.v, desc = u(256+o.v.Uint64()), "offset 256 + valid"
+		case 2:
+			o.v, desc = hi(o.v, 64), "offset 2^64 + valid"
+		case 3:
+			o.v, desc = hi(o.v, 255), "offset 2^255 + valid"
+		case 4:
+			o.v, desc = u(255), "offset 255"
+		default:
+			o.v, desc = u(33), "offset 33"
+		}
+	case "size":
+		switch uniform(t, 0, 4, "msize") {
+		case 0:
+			o.v, desc = u(33), "size 33"
+		case 1:
+			o.v, desc = hi(o.v, 64), "size 2^64 + valid"
+		case 2:
+			o.v, desc = hi(o.v, 128), "size 2^128 + valid"
+		case 3:
+			o.v, desc = u(256+o.v.Uint64()), "size 256 + valid"
+		default:
+			o.v, desc = new(uint256.Int).Not(u(0)), "size 2^256-1"
+		}
+	case "ptype":
+		o.v, desc = u(0x7777), "unknown parent type"
+	case "pslot":
+		o.v, desc = u(0x7778), "unknown parent slot"
+	case "type":
+		o.v, desc = u(0x7779), "type of no registered key"
+	case "slot":
+		o.v, desc = u(0x777a), "slot of no registered key"
+	}
+	for _, o := range ops {
+		a.Push(o.v)
+	}
+	emit(op, len(ops))
+	return fmt.Sprintf("%s with %s: %s", jopName(op), o.role, desc)
+}
+
+func jopName(op byte) string {
+	return map[byte]string{RSVJNAL: "RSVJNAL", VSVJNAL: "VSVJNAL", IRVVJNAL: "IRVVJNAL", IRVRJNAL: "IRVRJNAL", IVVVJNAL: "IVVVJNAL", IVVRJNAL: "IVVRJNAL", VVJNAL: "VVJNAL", VRJNAL: "VRJNAL"}[op]
 }
 
 func TestC12(t *testing.T)       { runProp(t, "C12", genC12, checkC12) }
